@@ -32,7 +32,7 @@ class Config:
     muted: frozenset = frozenset({"except", "ctx"})
 
 
-BASE = Config()
+BASE = Config(watch=frozenset({"execute_with_timeout", "on_timeout", "on_cancel"}), guards=frozenset({"execution.is_canceled"}))
 
 
 @dataclass
